@@ -16,8 +16,11 @@ CONSTANTS Part, Deep     \* which sub-universe to print; Deep = TRUE for the tho
 IdOrd(ps) == ps
 RECURSIVE Rev(_)
 Rev(s) == IF s = << >> THEN << >> ELSE Append(Rev(Tail(s)), Head(s))
-W5 == INSTANCE Wire5 WITH Ord <- IdOrd
-W5R == INSTANCE Wire5 WITH Ord <- Rev
+W5 == INSTANCE Wire5 WITH Ord <- IdOrd, CutAt <- -1
+W5R == INSTANCE Wire5 WITH Ord <- Rev, CutAt <- -1
+\* property sections cut after k bytes, in both property orders
+W5C(k) == INSTANCE Wire5 WITH Ord <- IdOrd, CutAt <- k
+W5RC(k) == INSTANCE Wire5 WITH Ord <- Rev, CutAt <- k
 W3 == INSTANCE Wire3
 
 S0 == << >>
@@ -235,8 +238,12 @@ VarVecs(ver) ==
              \cup {<<224>> \o VarEnc(1 + Len(f)) \o <<0>> \o f : f \in VarForms(0)}
              \cup {<<32>> \o VarEnc(2 + Len(f)) \o <<0, 0>> \o f : f \in VarForms(0)}
         ELSE {})
+\* every property section of every base frame cut at every position (the frame and the section length agree)
+PropCuts == {W5C(k)!Enc(p) \o PayBytes(Pay(p)) : k \in 0..(IF Deep THEN 80 ELSE 40), p \in MutBase5}
+            \cup {W5RC(k)!Enc(p) \o PayBytes(Pay(p)) : k \in 0..(IF Deep THEN 80 ELSE 40), p \in MutBase5}
 EmitMut(ver) ==
   /\ \A b \in VarVecs(ver) : EmitB(ver, b)
+  /\ ver = 5 => \A b \in PropCuts : EmitB(5, b)
   /\ \A b \in MutBases(ver) : \A m \in Mut1(b) : EmitB(ver, m)
   /\ \A b1 \in MutBases(ver) : \A b2 \in MutBases(ver) : EmitB(ver, b1 \o b2)
   /\ Deep => \A b \in {x \in MutBases(ver) : Len(x) <= 40} : \A r \in RLMut(b) : \A m \in Mut1(r) : EmitB(ver, m)
